@@ -901,7 +901,50 @@ def do_unpack_from(interp, f, buf, offset, state, node):
     return tuple(T.index(u, i) for i in range(len(fm.values)))
 
 
+def _dynamic_bytes_format(f):
+    """'{}s'.format(n) / '%ds' % n / ... -> (code, count term) for a format
+    that is one counted bytes field, else None."""
+    if not (isinstance(f, Sym) and f.op == 'format' and
+            isinstance(f.args[0], str)):
+        return None
+    tmpl = f.args[0]
+    rest = f.args[1:]
+    cnt = None
+    m = _re.fullmatch(r'([@=<>!]?)(\{(?:0|:d)?\}|%d|%i|%s)([sp])', tmpl)
+    if m is None:
+        return None
+    if len(rest) >= 1 and isinstance(rest[0], tuple) and len(rest[0]) == 1 \
+            and (len(rest) < 2 or not rest[1]):
+        cnt = rest[0][0]
+    elif len(rest) == 1 and not isinstance(rest[0], tuple):
+        cnt = rest[0]
+    if cnt is None:
+        return None
+    return m.group(3), cnt
+
+
 def _s_pack(interp, args, kwargs, state, node):
+    dyn = _dynamic_bytes_format(args[0])
+    if dyn is not None and len(args) == 2:
+        code, cnt = dyn
+        v = args[1]
+        t = state.kn.type_of(v)
+        if t is None or not t <= {'bytes', 'bytearray'}:
+            interp.raise_pending(state, E('struct.error'), node,
+                                 'pack: argument for %r must be a bytes '
+                                 'object' % code)
+        ln = T.length(v)
+        if code == 's' and isinstance(T.sub(cnt, ln), int) and \
+                T.sub(cnt, ln) == 0:
+            return v  # exactly the bytes, nothing cut, nothing padded
+        if code == 'p' and isinstance(T.sub(cnt, T.add(ln, 1)), int) and \
+                T.sub(cnt, T.add(ln, 1)) == 0:
+            # Pascal string: the length octet saturates at 255 without an
+            # error while all the bytes are still written
+            return T.concat(Sym('pack', 'B', (T.cond(
+                T.compare('le', ln, 255), ln, 255),)), v)
+        # counted field that may cut or pad the value silently
+        return Sym('packdyn', code, _t(cnt), _t(v))
     f = _fmt_of(interp, args[0], node)
     return do_pack(interp, f, args[1:], state, node)
 
@@ -1044,6 +1087,15 @@ def call_method(interp, recv, name, args, kwargs, state, node):
         return Sym('method', recv, name, tuple(_t(a) for a in args))
     # symbolic receiver
     if recv.op == 'logger':
+        if name in ('isEnabledFor', 'getEffectiveLevel', 'hasHandlers',
+                    'getChild'):
+            # depends on how the application configured logging: an unknown
+            # (but fixed) answer
+            if name == 'getChild':
+                return Sym('logger', recv, *[_t(a) for a in args])
+            v = Sym('logconfig', recv, name, tuple(_t(a) for a in args))
+            return Sym('typed', v, ('bool',) if name != 'getEffectiveLevel'
+                       else ('int',), None)
         interp.effect('log', None, (name,) + tuple(T.show(a) for a in args),
                       node)
         return None
